@@ -23,7 +23,7 @@ func init() { Registry["C13"] = runC13 }
 type c13case struct {
 	Conf     sessConf `json:"conf"`
 	Kind     string   `json:"kind"`     // cache | cachepartial
-	Position string   `json:"position"` // head middle after-selective-filter after-materialize before-shuffle after-shuffle under-head
+	Position string   `json:"position"` // head middle under-prefixed after-selective-filter after-materialize before-shuffle after-shuffle under-head
 	Shards   int      `json:"shards"`
 	Rows     int      `json:"rows"`
 	Present  int      `json:"present"` // bitmask of shard files present before the second run
@@ -69,6 +69,15 @@ func c13program(c c13case, dir string) (Spec, int) {
 		ci = 2
 		mp.In = []int{2}
 		nodes = append(nodes, mp)
+	case "under-prefixed":
+		// the cache operator is wrapped directly by Prefixed (the idiom before a Reduce on a
+		// multi-column key): it is still a cache operator
+		mp2 := PNode{Op: "map", In: []int{0}, Out: []string{"int", "int", "int64"}, Src: []int{0, -1, -1}, Salt: c.Seed + 1, Mod: 7}
+		nodes = append(nodes, mp2)
+		cache.In = []int{1}
+		nodes = append(nodes, cache)
+		ci = 2
+		nodes = append(nodes, PNode{Op: "prefixed", In: []int{2}, P: 2}, PNode{Op: "reduce", In: []int{3}, Fold: "sum"})
 	case "after-materialize":
 		// the cached slice's dependency is not pipelined into the cache's task (Materialize
 		// pragma): the cache operator is the first operation of its pipeline
@@ -368,7 +377,7 @@ func tailStrs(x []string, n int) []string {
 
 func runC13(r *vf.Runner) {
 	confs := []sessConf{localP4, bm2}
-	positions := []string{"head", "middle", "after-selective-filter", "after-materialize", "before-shuffle", "after-shuffle", "under-head"}
+	positions := []string{"head", "middle", "under-prefixed", "after-selective-filter", "after-materialize", "before-shuffle", "after-shuffle", "under-head"}
 	run := func(c c13case) { r.Case(c, func(t *vf.T) { runC13case(t, c) }) }
 	// (a) every subset of pre-existing shard files for <= 3 (quick) / 4 (thorough) shards
 	maxS := 3
